@@ -19,8 +19,10 @@ import (
 	"log/slog"
 	"os"
 	"path/filepath"
+	"runtime/debug"
 	"sort"
 	"strings"
+	"sync"
 
 	"github.com/hydraide/hydraide/app/core/hydra/swamp/beacon"
 	"github.com/hydraide/hydraide/app/core/hydra/swamp/chronicler"
@@ -84,12 +86,43 @@ type observed struct {
 	hdrBC   uint64
 }
 
+// suspicious reports whether some block header of the file claims more payload than the file
+// holds.  The engine's reader allocates the claimed size before reading (up to 4 GiB per block,
+// another property's concern); such files are observed one at a time so that a broken writer
+// cannot make 16 workers allocate 4 GiB each.
+func suspicious(path string) bool {
+	raw, err := os.ReadFile(path)
+	if err != nil || len(raw) < 64 {
+		return false
+	}
+	off := 64
+	if raw[4] == 3 {
+		off += int(raw[44]) | int(raw[45])<<8
+	}
+	for off+16 <= len(raw) {
+		cs := int(raw[off]) | int(raw[off+1])<<8 | int(raw[off+2])<<16 | int(raw[off+3])<<24
+		off += 16
+		if cs > len(raw)-off {
+			return true
+		}
+		off += cs
+	}
+	return false
+}
+
+var bigAlloc sync.Mutex
+
 func observeFile(path string) observed {
 	var o observed
 	if _, err := os.Stat(path); err != nil {
 		return o
 	}
 	o.exists = true
+	if suspicious(path) {
+		bigAlloc.Lock()
+		defer bigAlloc.Unlock()
+		defer debug.FreeOSMemory()
+	}
 	fr, err := v2.NewFileReader(path)
 	if err != nil {
 		o.loadErr = err.Error()
